@@ -2125,7 +2125,7 @@ func main() {
 			"7 self-nested cases (a funcs-file function called inside each of its own argument positions to depth 2, in its last position to depth 3, and in every position at once; bodies over format, tab, if, sumi, sumf, @map): call vs completely inlined body, optimising and plain builder, then 20 rounds from 4 goroutines; " +
 			"8 builtin-shadowing cases (funcs-file definitions named upper, sumi, if, len, lower, eq, tab, coalesce - modelled - and format, hf, sumf, json - equality-only - used directly and by a later definition, registered through funclib; one through the rare binary): the file's definition wins, call = inlined body; " +
 			"17 big-number cases (gt gte lt lte eq neq maxi mini subi divi modi sumf; values and thresholds 2^53, 1.7e18, 2^62, near 2^63 and a seeded base, each with offsets -2..2 and negated, MaxInt64 / MinInt64): per helper 24 pairs 'constant operand written in the template (left or right) vs the same numeral read from a group'; 4 funcs-file cases (a comparison over its parameters, a later definition calling it, called with the constant threshold) and one with bucket / clamp / round / bucketrange constants inside a body, vs the inlined body; optimising and plain builder, all equal; " +
-			"12 constant-loop cases (an @for that never reads the context, 9,999 / 10,001 / 20,000 / 65,537 / 250,000 rounds and two seeded sizes, condition on the value or on the round counter, reduced by @len, one also by @select -1): directly, and inside funcs-file functions (constant loop next to a parameter, start value passed as a constant argument) vs the inlined body; optimising and plain builder, all equal; " +
+			"9 constant-loop cases (an @for that never reads the context, 9,999 / 10,001 / 20,000 / 65,537 / 250,000 rounds and two seeded sizes, condition on the value or on the round counter, reduced by @len, one also by @select -1): directly, and inside funcs-file functions (constant loop next to a parameter, start value passed as a constant argument) vs the inlined body; optimising and plain builder, all equal; " +
 			"20 float-fold cases (sumf subf multf divf, 3-5 operands, constants first / last / interleaved / single / random, values among 0.1 0.2 0.3 0.7 1e16 -1e16 1 3 10 1e-17 1e308 0.5 -0.1 1e-320 where re-association changes the result): per operator one case of 15 pairs 'constant written in the template vs the same constant read from a group' and 4 cases of a funcs-file function over its parameters called with constant and mixed arguments vs the inlined body; optimising and plain builder, all equal; " +
 			"18 sequence cases (time / buckettime / timeformat / timeattr with explicit format and time-zone arguments, named formats, a constant prefix plus a capture, a named key, nested in sumi/timeformat, durations, floats/json/format; 3 with the auto-detected layout): three evaluation sequences per template on ONE compiled expression - the all-empty context (the optimiser's probe value) first, unparseable values, the same value on consecutive evaluations, a bad value first, a seeded shuffle - step by step: optimising = plain = a fresh plain compile = a fresh optimising compile of that step (for the auto-detected layout, which is remembered by design, only optimising = plain); " +
 			"11 funcs-file cases whose body reaches time/buckettime (auto-detected layout, remembered by the stage), timeformat, timeattr, duration through {i}, a later definition calling an earlier one, called with arguments mixing constant text and captures: call (optimising, plain) = inlined body (optimising, plain) on every context, every builder compiled freshly; " +
